@@ -21,16 +21,29 @@ code -> spec : real listings are cut at byte offsets (all offsets of the small o
                are cut like the other listings too.  The clauses are the same; a finding that needs such a history is
                keyed .../after-<layout> and its case carries the history (`after`), found by replaying the first case
                of the class in fresh processes (minimise_histories).
+               "Which thread parses" (valjean parses listings in the worker threads of its scheduler): every process that
+               parses has, besides its main thread, live worker threads that stay for the whole run and are fed through
+               queues; the Parser calls of a share of ALL the cases above (rendered and real listings, prefixes and complete
+               ones; see pick_thread: every 4th case, and always the case after a failing one and after the first success
+               that follows) are made by them, each in turn, the main thread taking part.  The observations go to TLC
+               like the others (same clauses: error or the editions of the complete listing).  A call that gets no answer
+               (see _on_alarm: the thread is blocked, judged on its CPU clock) is outcome Other/Hang; the process that saw
+               it runs nothing more; the finding counts when a fresh process given the same recent history (`before` and
+               `thread` of the case) shows it again, and is keyed .../other-thread when the main thread alone does not.
 """
 import glob
 import hashlib
 import json
 import multiprocessing
 import os
+import queue
 import random
 import re
 import signal
+import threading
+import time
 import traceback
+from collections import deque
 from concurrent.futures import ThreadPoolExecutor
 
 import core
@@ -44,7 +57,11 @@ PROPS = ['StoredIsStable']
 WITNESSES = ['W_TwoEditions', 'W_ParaStored', 'W_PartialStored', 'W_CutErrors', 'W_InterpretedCutWrongTime',
              'W_InterpretedCutNotATime', 'W_PrefixKeepsFirstEdition']
 PARA_WITNESSES = ['W_ParaLayoutEdLine', 'W_ParaLayoutNoEdLine']     # on the parallel-job layouts
-WATCHDOG = 60.0          # seconds per Parser call; a listing of 3 MB is scanned in 0.1 s
+WATCHDOG = 60.0          # seconds of CPU time per Parser call; a listing of 3 MB is scanned in 0.1 s
+TICK = 1.0               # the thread that runs a Parser call is looked at every so many seconds
+QUIET = 15               # consecutive ticks in which that thread used no CPU time at all: it is blocked for ever
+NTHREADS = 3             # the threads that parse in a process: 0 the main thread, 1.. live worker threads
+THREAD_EVERY = 4         # every so many cases the parse is given to a worker thread (see pick_thread)
 DATA_DIRS = ('tests/eponine/tripoli4/data', 'doc/src/examples')
 NOT_A_TIME = -1
 TIME_KEYS = {'simulation_time': 'simtime', 'exploitation_time': 'exptime', 'elapsed_time': 'elapsed'}
@@ -144,8 +161,121 @@ class Hang(BaseException):
     """Raised by the watchdog (BaseException: must not be swallowed by `except Exception`)."""
 
 
+# A Parser call hangs when the thread that runs it (a) used no CPU time at all during QUIET consecutive ticks -- it is
+# blocked, and nothing else runs in the process that could release it: the other parsing threads are idle --, or (b) used
+# more than WATCHDOG seconds of CPU time, or (c) is not back after 10 x WATCHDOG seconds.  The verdict rests on the CPU
+# clock of the thread, not on elapsed time: a loaded machine makes a parse slow, it does not make it idle.
+_GUARD = dict(on=False, quiet=0, last=0.0, cpu0=0.0, t0=0.0)
+_HUNG = [False]          # a Parser call hung in this process: whatever it holds is held for ever, nothing more is run here
+
+
 def _on_alarm(signum, frame):
-    raise Hang()
+    """tick of the watchdog of the main thread (the handler runs in the main thread: thread_time() is its CPU clock)."""
+    st = _GUARD
+    if not st['on']:
+        return
+    now = time.thread_time()
+    st['quiet'] = st['quiet'] + 1 if now - st['last'] < 0.002 else 0
+    st['last'] = now
+    if st['quiet'] >= QUIET or now - st['cpu0'] > WATCHDOG or time.monotonic() - st['t0'] > 10 * WATCHDOG:
+        st['on'] = False
+        raise Hang()
+
+
+def _guard_main(func, *args):
+    now = time.thread_time()
+    _GUARD.update(on=True, quiet=0, last=now, cpu0=now, t0=time.monotonic())
+    signal.setitimer(signal.ITIMER_REAL, TICK, TICK)
+    try:
+        return func(*args)
+    finally:
+        _GUARD['on'] = False
+        signal.setitimer(signal.ITIMER_REAL, 0)
+
+
+class _ParseThread:
+    """A live thread of this process that parses what it is given (like a worker thread of valjean's scheduler): it is
+    started once and stays for the rest of the process; a daemon, so that a thread stuck in a parse does not keep the
+    process from ending."""
+
+    def __init__(self, idx):
+        self.todo, self.done = queue.SimpleQueue(), queue.SimpleQueue()
+        self.thread = threading.Thread(target=self._loop, name='c11-parse-%d' % idx, daemon=True)
+        self.thread.start()
+        self.clock = time.pthread_getcpuclockid(self.thread.ident)
+
+    def _loop(self):
+        while True:
+            func, args = self.todo.get()
+            try:
+                res = (True, func(*args))
+            except BaseException as ex:  # pylint: disable=broad-except
+                res = (False, ex)
+            self.done.put(res)
+
+    def call(self, func, *args):
+        """func(*args) in the thread; its result or exception; Hang (see above)."""
+        cpu0 = last = time.clock_gettime(self.clock)
+        t0, quiet = time.monotonic(), 0
+        self.todo.put((func, args))
+        while True:
+            try:
+                ok, val = self.done.get(timeout=TICK)
+            except queue.Empty:
+                now = time.clock_gettime(self.clock)
+                quiet = quiet + 1 if now - last < 0.002 else 0
+                last = now
+                if quiet >= QUIET or now - cpu0 > WATCHDOG or time.monotonic() - t0 > 10 * WATCHDOG:
+                    raise Hang() from None
+                continue
+            if ok:
+                return val
+            raise val
+
+
+_THREADS = {}            # (pid, index) -> _ParseThread (threads do not survive a fork)
+_THREAD = [0]            # the thread that runs the Parser calls of the current case
+
+
+def _guarded(func, *args):
+    """func(*args) in the thread of the current case, under the watchdog."""
+    idx = _THREAD[0]
+    if not idx:
+        return _guard_main(func, *args)
+    key = (os.getpid(), idx)
+    if key not in _THREADS:
+        _THREADS[key] = _ParseThread(idx)
+    try:
+        return _THREADS[key].call(func, *args)
+    except Hang:
+        del _THREADS[key]            # the thread is stuck: another one takes its place
+        raise
+
+
+# Which thread parses: valjean parses listings in the worker threads of its scheduler, and the statement says "whatever was
+# parsed earlier in the same process".  Most cases are parsed by the main thread; every THREAD_EVERY-th case by a live
+# worker thread (each in turn); the case after a case that FAILED (parser error, from the scanner or the grammar), and the
+# case after the first success that follows a failure, by the thread after the one that ran that case (main -> 1 -> 2 ->
+# main): a failing parse is always followed by a parse in another thread that is alive, and so is a succeeding one.
+_ROT = dict(n=0, last=0, worker=1, failed=False, before=False)
+_RECENT = deque(maxlen=4)     # the last cases of this process that parsed an edition or failed, replayable (see _replay)
+
+
+def pick_thread():
+    rot = _ROT
+    rot['n'] += 1
+    if rot['failed'] or rot['before']:
+        return (rot['last'] + 1) % NTHREADS
+    if rot['n'] % THREAD_EVERY == 0:
+        rot['worker'] = rot['worker'] % (NTHREADS - 1) + 1
+        return rot['worker']
+    return 0
+
+
+def case_done(thread, failed, record=None):
+    _ROT.update(last=thread, before=_ROT['failed'] and not failed, failed=failed)
+    if record is not None:
+        _RECENT.append(record)
 
 
 def _valjean_frame(ex):
@@ -210,38 +340,32 @@ def _is_comment(line):
 
 
 def open_listing(path):
-    """Parser(path) under the watchdog -> (outcome, parser|None, exc name, where)."""
+    """Parser(path) in the thread of the current case, under the watchdog -> (outcome, parser|None, exc name, where)."""
     from valjean.eponine.tripoli4.parse import Parser, ParserException
-    signal.setitimer(signal.ITIMER_REAL, WATCHDOG)
     try:
-        try:
-            return 'Ok', Parser(path), None, None
-        except ParserException:
-            return 'ParserError', None, None, None
-        except Hang:
-            return 'Other', None, 'Hang', 'scan'
-        except Exception as ex:  # pylint: disable=broad-except
-            return 'Other', None, type(ex).__name__, _valjean_frame(ex)
-    finally:
-        signal.setitimer(signal.ITIMER_REAL, 0)
+        return 'Ok', _guarded(Parser, path), None, None
+    except ParserException:
+        return 'ParserError', None, None, None
+    except Hang:
+        _HUNG[0] = True
+        return 'Other', None, 'Hang', 'scan'
+    except Exception as ex:  # pylint: disable=broad-except
+        return 'Other', None, type(ex).__name__, _valjean_frame(ex)
 
 
 def parse_edition(parser, n):
-    """parse_from_number(n) under the watchdog -> (status, ParseResult|None, exc name, where);
-    status: 'ok' | 'pe' | 'other'."""
+    """parse_from_number(n) in the thread of the current case, under the watchdog -> (status, ParseResult|None, exc name,
+    where); status: 'ok' | 'pe' | 'other'."""
     from valjean.eponine.tripoli4.parse import ParserException
-    signal.setitimer(signal.ITIMER_REAL, WATCHDOG)
     try:
-        try:
-            return 'ok', parser.parse_from_number(n), None, None
-        except ParserException:
-            return 'pe', None, None, None
-        except Hang:
-            return 'other', None, 'Hang', 'parse'
-        except Exception as ex:  # pylint: disable=broad-except
-            return 'other', None, type(ex).__name__, _valjean_frame(ex)
-    finally:
-        signal.setitimer(signal.ITIMER_REAL, 0)
+        return 'ok', _guarded(parser.parse_from_number, n), None, None
+    except ParserException:
+        return 'pe', None, None, None
+    except Hang:
+        _HUNG[0] = True
+        return 'other', None, 'Hang', 'parse'
+    except Exception as ex:  # pylint: disable=broad-except
+        return 'other', None, type(ex).__name__, _valjean_frame(ex)
 
 
 def _arr_eq(a, b):
@@ -360,8 +484,21 @@ class Listing:
             return nl + 1, ''
         return nl, part
 
-    def observe(self, path, off, rng=None, rate=1.0, ref=None, only=None):
-        """Run the implementation on the prefix stored at `path` (= data[:off]) -> observation dict."""
+    def observe(self, path, off, rng=None, rate=1.0, ref=None, only=None, thread=None):
+        """Run the implementation on the prefix stored at `path` (= data[:off]) -> observation dict.  The Parser calls
+        are made by thread `thread` of this process (None: the next one in turn, see pick_thread)."""
+        _THREAD[0] = thread = pick_thread() if thread is None else thread
+        try:
+            obs, parsed, failed = self._observe(path, off, rng, rate, ref, only, thread)
+        finally:
+            _THREAD[0] = 0
+        record = None
+        if parsed or failed:        # what is needed to make the same Parser calls again (history of later cases)
+            record = dict(source='file', file=self.name, offset=off, thread=thread, only=parsed)
+        case_done(thread, failed, record)
+        return obs
+
+    def _observe(self, path, off, rng, rate, ref, only, thread):
         nl, part = self.locate(off)
         if off >= len(self.data):
             nl, part = len(self.phys), ''
@@ -370,13 +507,15 @@ class Listing:
         prec = classify(part) if part else None
         frec = self.recs[nl] if nl < len(self.recs) else ('eof', None)
         obs = dict(off=off, pos=self.sig_before[nl], nl=nl, part=prec, full=frec, cut=cut_class(frec, prec),
-                   outcome=None, exc=None, where=None, keys=[], eds=[], times=[], diff='', nparse=0, after=list(_HISTORY))
+                   outcome=None, exc=None, where=None, keys=[], eds=[], times=[], diff='', nparse=0, after=list(_HISTORY),
+                   thread=thread, before=list(_RECENT))
+        parsed, failed = [], False
         outcome, parser, exc, where = open_listing(path)
         obs['outcome'], obs['exc'], obs['where'] = outcome, exc, where
         if exc:
             obs['where'] = 'scan:' + str(where)
         if parser is None:
-            return obs
+            return obs, parsed, True
         sc = parser.scan_res
         phys = self.phys[:nl] + ([part] if part else [])
         obs['keys'] = [int(k) for k in sc.keys()]
@@ -408,9 +547,13 @@ class Listing:
             else:
                 status, pres, pexc, pwhere = parse_edition(parser, n)
                 obs['nparse'] += 1
+                parsed.append(n)
+                failed = failed or status != 'ok'
                 diff = ''
                 if status == 'other':
                     obs['outcome'], obs['exc'], obs['where'] = 'Other', pexc, 'parse:' + str(pwhere)
+                    if pexc == 'Hang':          # nothing more can be asked of this process
+                        break
                 elif status == 'ok' and ref is not None:
                     rres = ref(n)
                     if rres == 'absent':
@@ -422,20 +565,35 @@ class Listing:
                 obs['diff'] = 'edition %d: %s' % (n, diff)
             obs['eds'].append(dict(n=n, first=first + 1, last=last + 1, ok=status == 'ok',
                                    times=[dict(k=k, t=t) for k, t in times]))
-        return obs
+        return obs, parsed, failed
 
     def ref_edition(self, n):
         """results of edition n of the COMPLETE listing (parsed on demand, once): res dict, None when the complete
         listing's edition does not parse, 'absent' when it has no such edition."""
         if self.full_parser is None:
-            self.full_parser = open_listing(self.path)[1] or False
+            self.full_parser = self._open_full()
         if n not in self.ref:
             if not self.full_parser or n not in self.full_parser.batch_numbers():
                 self.ref[n] = 'absent'
             else:
-                status, pres, _, _ = parse_edition(self.full_parser, n)
+                status, pres, pexc, _ = parse_edition(self.full_parser, n)
+                if pexc == 'Hang':
+                    _REF_HANGS.append(self._hang_case('parse'))
                 self.ref[n] = pres.res if status == 'ok' else None
         return self.ref[n]
+
+    def _open_full(self):
+        _, parser, exc, _ = open_listing(self.path)
+        if exc == 'Hang':
+            _REF_HANGS.append(self._hang_case('scan'))
+        return parser or False
+
+    def _hang_case(self, stage):
+        """(key, what, case) of a hang met while the COMPLETE listing is parsed as the reference of a prefix"""
+        return ('C11/hang/%s/complete' % stage, 'no answer from the %s of the complete listing %s, asked for as the reference '
+                'of a prefix' % (stage, self.name),
+                dict(source='file', file=self.name, offset=len(self.data), after=list(_HISTORY), thread=_THREAD[0],
+                     before=list(_RECENT)))
 
     def complete_obs(self, rng=None, last=False):
         """observation of the complete listing (all editions parsed when there are few, else the first and last two;
@@ -443,7 +601,7 @@ class Listing:
         saved, self.memo = self.memo, {}
         only = None
         if self.full_parser is None:
-            self.full_parser = open_listing(self.path)[1] or False
+            self.full_parser = self._open_full()
         if self.full_parser:
             nums = [int(x) for x in self.full_parser.batch_numbers()]
             only = nums if len(nums) <= 12 else nums[:2] + nums[-2:]
@@ -467,7 +625,9 @@ def finding_of(obs, tlc_bad=False):
     if obs['outcome'] == 'Other':
         stage = (obs['where'] or '?').split(':')[0]
         if obs['exc'] == 'Hang':
-            return 'C11/hang/%s/%s' % (stage, kind), 'no answer after %.0f s' % WATCHDOG
+            return ('C11/hang/%s/%s' % (stage, kind),
+                    'no answer: the thread that parses is blocked (no CPU time used for %d s) or has used %.0f s of CPU time'
+                    % (QUIET * TICK, WATCHDOG))
         if stage == 'parse':
             return ('C11/parse/%s/%s' % (obs['exc'], obs['where'].split(':', 1)[1]),
                     'parse_from_number raises %s (from %s) instead of ParserException' % (obs['exc'], obs['where']))
@@ -636,14 +796,29 @@ def _model_proj(state_scan, verdict_open, ok_set, chunks, cut_at=None, cut='none
 
 
 _REF_CACHE = {}
+_REF_HANGS = []          # (key, what, case): hangs met while a complete listing was parsed as a reference
 
 
 _PARSE_MEMO = {}
 
 
-def run_model_case(lines, pos, cut, tmp, memo=False):
+def run_model_case(lines, pos, cut, tmp, memo=False, thread=None):
     """Render and run one (listing, prefix, cut) -> dict with the implementation's projection and, when the
-    prefix parses, the comparison of every edition with the complete rendered listing."""
+    prefix parses, the comparison of every edition with the complete rendered listing.  The Parser calls are made by
+    thread `thread` of this process (None: the next one in turn, see pick_thread)."""
+    _THREAD[0] = thread = pick_thread() if thread is None else thread
+    before = list(_RECENT)
+    try:
+        impl, chunks = _run_model_case(lines, pos, cut, tmp, memo)
+    finally:
+        _THREAD[0] = 0
+    impl.update(thread=thread, before=before)
+    failed = impl['outcome'] != 'Ok' or len(impl['ok']) < len(impl['keys'])
+    case_done(thread, failed, dict(source='model', lines=[list(x) for x in lines], pos=pos, cut=cut, thread=thread))
+    return impl, chunks
+
+
+def _run_model_case(lines, pos, cut, tmp, memo):
     chunks = render(lines)
     full_text = prefix_text(chunks, len(chunks), 'none')
     text = prefix_text(chunks, pos, cut)
@@ -691,6 +866,8 @@ def run_model_case(lines, pos, cut, tmp, memo=False):
                 _PARSE_MEMO[sig] = (status, pres, pexc, pwhere)
             if status == 'other':
                 impl.update(outcome='Other', exc=pexc, where='parse:%s' % pwhere)
+                if pexc == 'Hang':              # nothing more can be asked of this process
+                    break
             elif status == 'ok':
                 impl['ok'].append(n)
                 if n not in ref:
@@ -1254,7 +1431,8 @@ def _prime(name=None):
     _PARSE_MEMO.clear()
     fnd = finding_of(obs)
     if fnd:
-        fnd = (fnd[0], fnd[1] + ' [complete %s]' % name, dict(source='file', file=name, offset=len(lst.data), after=obs['after']))
+        fnd = (fnd[0], fnd[1] + ' [complete %s]' % name, dict(source='file', file=name, offset=len(lst.data), after=obs['after'],
+                                                              thread=obs['thread'], before=obs['before']))
     return fnd, 1 + obs['nparse']
 
 
@@ -1266,6 +1444,10 @@ def _work_offsets(task):
     rel, offsets, seed, rate, every, want_ref = task[:6]
     prime = task[6] if len(task) > 6 else 0
     rng = random.Random(seed)
+    if _HUNG[0]:            # a parse hung in this process (reported by the job that saw it): nothing more is run here
+        return dict(rel=rel, groups=[], n=0, nparse=0, history=[], primed=[], lines=None, ref_obs=None, skipped=len(offsets))
+    if _ROT['n'] == 0:      # (the first parse of a process is made by a worker thread in one process out of THREAD_EVERY)
+        _ROT['n'] = seed % THREAD_EVERY
     lst = _listing(rel)
     lst.memo = {}
     ref_obs = lst.complete_obs() if want_ref else None
@@ -1275,6 +1457,8 @@ def _work_offsets(task):
     nparse = 0
     history = []
     primed = []
+    skipped = 0
+    del _REF_HANGS[:]
 
     def note(obs):
         key = obs_key(obs) + '|' + str(obs['exc']) + '|' + obs['diff'].split(': ')[0] + '|' + obs['cut']
@@ -1289,6 +1473,8 @@ def _work_offsets(task):
         fnd, n = _prime(name)
         if fnd and len(primed) < 20:
             primed.append(fnd)
+        if _HUNG[0]:
+            return n
         return n + note(lst.observe(tmp, off, rng=None, ref=lst.ref_edition, only='last'))
     with open(tmp, 'wb') as f:
         written = 0
@@ -1297,8 +1483,12 @@ def _work_offsets(task):
             f.write(lst.data[:written])
             f.flush()
             for name in gram_names():
-                nparse += prime_and_parse(written, name)
+                if not _HUNG[0]:
+                    nparse += prime_and_parse(written, name)
         for count, off in enumerate(offsets):
+            if _HUNG[0]:
+                skipped = len(offsets) - count
+                break
             if off < written:
                 f.seek(0)
                 f.truncate()
@@ -1308,9 +1498,9 @@ def _work_offsets(task):
             f.flush()
             written = off
             nparse += note(lst.observe(tmp, off, rng=rng, rate=rate, ref=lst.ref_edition))
-            if prime and count % prime == prime - 1:
+            if prime and count % prime == prime - 1 and not _HUNG[0]:
                 nparse += prime_and_parse(off)
-            if every and count % every == every - 1:
+            if every and count % every == every - 1 and not _HUNG[0]:
                 # history clause: a complete listing parsed in between gives what it gave at the start
                 again = lst.complete_obs(rng)
                 nparse += 1 + again['nparse']
@@ -1319,29 +1509,41 @@ def _work_offsets(task):
                 same_scan = [again[k] for k in ('outcome', 'keys', 'times')] == [first_obs[k] for k in ('outcome', 'keys', 'times')]
                 if not same_scan or again['diff'] or again['exc']:
                     history.append(dict(after=off, got=again['outcome'], diff=again['diff'], exc=again['exc'], primed=again['after']))
-    return dict(rel=rel, groups=list(groups.values()), n=len(offsets), nparse=nparse, history=history, primed=primed,
-                lines=lst.abstract_lines() if want_ref else None, ref_obs=ref_obs)
+    if ref_obs is not None and ref_obs['exc'] == 'Hang':        # (reported as a finding of its own; no reference)
+        _REF_HANGS.append(('C11/hang/%s/complete' % ref_obs['where'].split(':')[0], 'no answer from the complete listing %s' % rel,
+                           dict(source='file', file=rel, offset=len(lst.data), after=ref_obs['after'], thread=ref_obs['thread'],
+                                before=ref_obs['before'])))
+        ref_obs = None
+    return dict(rel=rel, groups=list(groups.values()), n=len(offsets) - skipped, nparse=nparse, history=history, primed=primed,
+                lines=lst.abstract_lines() if want_ref else None, ref_obs=ref_obs, skipped=skipped, refhang=_REF_HANGS[:4])
 
 
 def _work_states(task):
     """task = list of (lines, [(pos, cut, st, alt, out)...], final_st, final_out) -> findings, counts."""
     tmp = _tmp_path()
-    res = dict(n=0, nparse=0, findings=[], drift=[], ok=0, distinct=[])
+    res = dict(n=0, nparse=0, findings=[], drift=[], ok=0, distinct=[], skipped=0)
     for lines, states, final_st, final_out in task:
         exp = expectation(final_st, final_out)
         suffix = layout_suffix(lines)
         for count, (pos, cut, st, alt, out) in enumerate(states):
+            if _HUNG[0]:                    # a parse hung in this process (reported): nothing more is run here
+                res['skipped'] += len(states) - count
+                break
             if count == 0:                  # a grammar-written listing (each in turn) parsed complete in between
                 fnd, n = _prime()
                 res['nparse'] += n
                 if fnd and len(res['findings']) < 50:
                     res['findings'].append((fnd[0], '/gram-' + fnd[2]['file'][len(GRAM):], fnd[1], fnd[2]))
+                if _HUNG[0]:
+                    res['skipped'] += len(states)
+                    break
             impl, chunks = run_model_case(lines, pos, cut, tmp, memo=True)
             res['nparse'] += impl['nparse']
             kind = lines[pos][0] if pos < len(lines) else 'eof'
             fnd, conforms = judge_model_case(impl, chunks, st, alt, out, exp, kind, cut, pos)
             res['n'] += 1
-            case = dict(source='model', lines=[list(x) for x in lines], pos=pos, cut=cut, expect=exp, after=list(_HISTORY))
+            case = dict(source='model', lines=[list(x) for x in lines], pos=pos, cut=cut, expect=exp, after=list(_HISTORY),
+                        thread=impl['thread'], before=impl['before'])
             if fnd:
                 res['findings'].append((fnd[0], suffix, fnd[1], case))
             elif not conforms and len(res['drift']) < 2:
@@ -1366,12 +1568,43 @@ def replay_case(case):
     return fnd is None, detail + (' -- ' + fnd[1] if fnd else '')
 
 
+def _replay_before(case):
+    """The Parser calls of the cases recorded as the recent history of `case` (`before`), made again by the threads that
+    made them -> finding | None (they were fine when they were observed)."""
+    for step in case.get('before') or []:
+        if step['source'] == 'file':
+            lst = _listing(step['file'])
+            lst.memo = {}
+            tmp = _tmp_path()
+            with open(tmp, 'wb') as f:
+                f.write(lst.data[:step['offset']])
+            obs = lst.observe(tmp, step['offset'], only=step.get('only'), thread=step.get('thread', 0))
+            if obs['exc'] == 'Hang':
+                return finding_of(obs)
+        else:
+            impl, _ = run_model_case([(k, n) for k, n in step['lines']], step['pos'], step['cut'], _tmp_path(),
+                                     thread=step.get('thread', 0))
+            if impl['exc'] == 'Hang':
+                return finding_of(dict(outcome='Other', exc='Hang', where=impl['where'], diff='', full=('?', None), cut=step['cut']))
+    return None
+
+
 def _replay(case):
     """-> (finding | None, detail).  `after` of the case: the grammar-written listings parsed complete, in this order,
-    between the parse of the complete listing (the reference) and the parse of the prefix."""
+    between the parse of the complete listing (the reference) and the parse of the prefix.  `before`: the last cases
+    parsed before it in the process that observed it, `thread`: the thread that parses (0: the main thread; others: live
+    worker threads of this process, started when first used)."""
     signal.signal(signal.SIGALRM, _on_alarm)
     after = list(case.get('after') or [])
+    thread = case.get('thread', 0)
     said = ' after %s' % ', '.join(after) if after else ''
+    if case.get('before'):
+        said += ' after %s' % ', '.join(
+            '%s in thread %d' % ('offset %d of %s' % (b['offset'], b['file']) if b['source'] == 'file' else
+                                 'a rendered listing cut at line %d (%s)' % (b['pos'] + 1, b['cut']), b.get('thread', 0))
+            for b in case['before'])
+    if thread or case.get('before'):
+        said += ' [parsed by %s]' % ('worker thread %d' % thread if thread else 'the main thread')
     if case['source'] == 'file':
         lst = _listing(case['file'])
         lst.memo = {}
@@ -1382,9 +1615,12 @@ def _replay(case):
                 lst.ref_edition(int(n))
             for name in after:
                 _prime(name)
+        fnd = _replay_before(case)
+        if fnd:
+            return fnd, 'a case of the history of offset %d of %s%s' % (case['offset'], case['file'], said)
         with open(tmp, 'wb') as f:
             f.write(lst.data[:case['offset']])
-        obs = lst.observe(tmp, case['offset'], ref=lst.ref_edition)
+        obs = lst.observe(tmp, case['offset'], ref=lst.ref_edition, thread=thread)
         fnd = finding_of(obs)
         detail = 'offset %d of %s (inside a %r line, %s)%s: outcome %s%s, editions %s' % (
             case['offset'], case['file'], obs['full'][0], obs['cut'], said, obs['outcome'],
@@ -1392,10 +1628,13 @@ def _replay(case):
         return fnd, detail
     lines = [(k, n) for k, n in case['lines']]
     if after:
-        run_model_case(lines, len(lines), 'none', _tmp_path())          # the reference (kept in _REF_CACHE) first
+        run_model_case(lines, len(lines), 'none', _tmp_path(), thread=0)          # the reference (kept in _REF_CACHE) first
         for name in after:
             _prime(name)
-    impl, chunks = run_model_case(lines, case['pos'], case['cut'], _tmp_path())
+    fnd = _replay_before(case)
+    if fnd:
+        return fnd, 'a case of the history of the rendered listing %s%s' % ([k for k, _ in lines], said)
+    impl, chunks = run_model_case(lines, case['pos'], case['cut'], _tmp_path(), thread=thread)
     kind = lines[case['pos']][0] if case['pos'] < len(lines) else 'eof'
     if case.get('expect'):          # TLC's scan of the complete listing, recorded with the case
         fnd = property_finding(impl, chunks, case['expect'], kind, case['cut'], case['pos'])
@@ -1416,30 +1655,57 @@ def _replay_shows(task):
         fnd = _replay(case)[0]
     except Exception:  # pylint: disable=broad-except
         return False
-    return fnd is not None and (fnd[0] == key or key.startswith('C11/history/'))
+    return fnd is not None and (fnd[0] == key or key.startswith('C11/history/')
+                                or (key.startswith('C11/hang/') and fnd[0].startswith('C11/hang/')))
+
+
+def _sequential(case, after):
+    """the case parsed by the main thread, without the cases parsed before it"""
+    return dict(case, after=after, thread=0, before=[])
 
 
 def minimise_histories(firsts, limit=12):
-    """{reported key: (raw key, case)} -> {reported key: (suffix, case)}: the smallest history of grammar-written listings
-    with which a FRESH process reproduces the finding: none (suffix ''), one of them ('/after-<layout>'), all those the
-    observing process had parsed ('/after-grammar-listings').  A finding that no such replay reproduces keeps its key
-    and its case (it needs a history this module does not record, e.g. a second scan of the same file)."""
+    """{reported key: (raw key, case)} -> ({reported key: (suffix, case)}, [unconfirmed hang keys]): the smallest history
+    with which a FRESH process reproduces the finding.  Parsed by the main thread alone: no history (suffix ''), one of
+    the grammar-written listings ('/after-<layout>'), all those the observing process had parsed
+    ('/after-grammar-listings').  Otherwise with the thread that parsed it and the last cases the observing process had
+    parsed before it, in the threads that parsed them ('/other-thread').  A finding that no such replay reproduces keeps
+    its key and its case (it needs a history this module does not record, e.g. a second scan of the same file) -- except a
+    HANG, which counts only when a fresh process shows it again (tried once more, alone)."""
     tasks, n_keys = [], 0
-    for full_key, (key, case) in firsts.items():
-        after = list(case.get('after') or [])
-        if after and n_keys < limit:
+    hang_keys = []
+    for full_key, (key, case) in sorted(firsts.items(), key=lambda kv: not kv[1][0].startswith('C11/hang/')):
+        after, before = list(case.get('after') or []), list(case.get('before') or [])
+        hang = key.startswith('C11/hang/')
+        threaded = bool(case.get('thread')) or any(b.get('thread') for b in before)
+        if (after or threaded or hang) and n_keys < limit:
             n_keys += 1
+            if hang:
+                hang_keys.append(full_key)
             hists = [[]] + [[name] for name in reversed(after)] + ([after] if len(after) > 1 else [])
-            tasks += [(full_key, key, dict(case, after=h)) for h in hists]
+            trials = [_sequential(case, h) for h in hists]
+            if threaded:
+                trials += [dict(case, after=[], before=before[-1:]), dict(case, after=[])] + ([dict(case)] if after else [])
+            tasks += [(full_key, key, t) for t in trials]
     out = {}
     if tasks:
         with multiprocessing.get_context('fork').Pool(NPROC, initializer=_init_worker, maxtasksperchild=1) as pool:
             shown = pool.map(_replay_shows, [(key, trial) for _, key, trial in tasks], chunksize=1)
-        for (full_key, _, trial), yes in zip(tasks, shown):         # (in the order none, one, all)
+        again = [t for t in tasks if t[0] in hang_keys and not any(y for (k, _, _), y in zip(tasks, shown) if k == t[0])]
+        last = {full_key: t for full_key, _, t in again}                # alone: the complete history, one key at a time
+        for full_key, trial in last.items():
+            with multiprocessing.get_context('fork').Pool(1, initializer=_init_worker, maxtasksperchild=1) as pool:
+                if pool.map(_replay_shows, [(firsts[full_key][0], trial)])[0]:
+                    tasks.append((full_key, firsts[full_key][0], trial))
+                    shown.append(True)
+        for (full_key, _, trial), yes in zip(tasks, shown):         # (in the order none, one, all; then threads)
             if yes and full_key not in out:
                 h = trial['after']
-                out[full_key] = ('' if not h else '/after-' + h[0][len(GRAM):] if len(h) == 1 else '/after-grammar-listings', trial)
-    return out
+                suffix = '' if not h else '/after-' + h[0][len(GRAM):] if len(h) == 1 else '/after-grammar-listings'
+                if trial.get('thread') or trial.get('before'):
+                    suffix += '/other-thread'
+                out[full_key] = (suffix, trial)
+    return out, [k for k in hang_keys if k not in out]
 
 
 # ----------------------------------------------------------------------------------------------
@@ -1513,7 +1779,9 @@ def run_c11(ctx):
              'written from the grammar for the result layouts no example has) parsed by parse.Parser and validated by TLC '
              'against T4ScanTrace.tla; between the prefixes, in the same long-lived processes, the complete listing and '
              '(each in turn) the complete grammar-written listings are parsed, and every listing is parsed right after each '
-             'of them. distinct_nontrivial '
+             'of them. In every process the Parser calls of every 4th case, of the case after a failing one and of the case '
+             'after the first success that follows are made by live worker threads (two per process, each in turn with the '
+             'main thread). distinct_nontrivial '
              'counts distinct (sequence of line kinds of the prefix, cut class, outcome, number of editions parsed) for '
              'rendered listings and distinct (listing, complete significant lines, unterminated line, observation) for '
              'real listings, excluding prefixes that end before the initialisation time.')
@@ -1524,6 +1792,9 @@ def run_c11(ctx):
                'run flags differ from those of an earlier case of the same process; the last stored edition always is')
     ctx.assume('results of an edition = response lists (datasets, metadata) + batch-level data present in both parses')
     ctx.assume('the listings written from the grammar are Tripoli-4 output only as far as grammar.py describes it')
+    ctx.assume('a Parser call hangs when its thread used no CPU time during %d consecutive ticks of %.0f s (nothing else runs '
+               'in the process), or more than %.0f s of CPU time; a hang counts when a fresh process shows it again'
+               % (QUIET, TICK, WATCHDOG))
     signal.signal(signal.SIGALRM, _on_alarm)
     wd = tlc.workdir('c11')
     _SCRATCH[:] = [wd]
@@ -1656,6 +1927,7 @@ def run_c11(ctx):
     _t('fresh-process parses')
 
     n_model_parse = 0
+    n_skipped = sum(r.get('skipped', 0) for r in model_results) + sum(r.get('skipped', 0) for r in file_results)
     pending = []            # (key, layout suffix, what, case): reported at the end, see below
     for r in model_results:
         n_states += r['n']
@@ -1692,6 +1964,19 @@ def run_c11(ctx):
                             dict(source='file', file=r['rel'], offset=sizes[r['rel']], after=h.get('primed', []))))
         for key, what, case in r.get('primed', []):
             pending.append((key, '/gram-' + case['file'][len(GRAM):], what, case))
+        for key, what, case in r.get('refhang', []):
+            pending.append((key, '', what, case))
+    for rel in [rel for rel, pf in per_file.items() if pf['ref_obs'] is None]:
+        # the process that was to parse the complete listing had a parse that hung (reported): what was observed of the
+        # listing is judged without TLC (a hang needs no reference), the rest is not judged in this run
+        for g in per_file.pop(rel)['groups'].values():
+            fnd = finding_of(g['obs'])
+            if fnd and g['obs']['outcome'] == 'Other':
+                pending.append((fnd[0], '', fnd[1] + ' [%s offset %d]' % (rel, g['obs']['off']),
+                                dict(source='file', file=rel, offset=g['obs']['off'], after=g['obs'].get('after', []),
+                                     thread=g['obs'].get('thread', 0), before=g['obs'].get('before', []))))
+            else:
+                n_skipped += g['count']
     rejected = [rel for rel in gram_names() if (per_file.get(rel) or {}).get('ref_obs') is not None
                 and per_file[rel]['ref_obs']['outcome'] != 'Other'
                 and not (per_file[rel]['ref_obs']['eds'] and all(e['ok'] for e in per_file[rel]['ref_obs']['eds']))]
@@ -1730,13 +2015,15 @@ def run_c11(ctx):
     oj = os.path.join(wd, 'out.json')
     tcfg = tlc.write_cfg(os.path.join(wd, 'trace.cfg'), spec='TSpec', invariants=['TimesKeyedByStored', 'NoScanErrorOnCompleteLines'],
                          deadlock=False, postcondition='Post')
-    res = tlc.run(TRACE, tcfg, workers=1, env=dict(VERIF_CASES=cj, VERIF_OUT=oj), timeout=1800)
-    ctx.tlc(res, 'T4ScanTrace')
-    _t('T4ScanTrace')
-    if not res.ok:
-        raise tlc.MachineryError('T4ScanTrace: %s\n%s' % (res.violation, res.out[-2500:]))
-    with open(oj) as f:
-        verdict = json.load(f)
+    verdict = dict(bad=[], drift=[], nofinal=[], modelbad=[])
+    if data:                # (no listing left: every process had a parse that hung, reported below)
+        res = tlc.run(TRACE, tcfg, workers=1, env=dict(VERIF_CASES=cj, VERIF_OUT=oj), timeout=1800)
+        ctx.tlc(res, 'T4ScanTrace')
+        _t('T4ScanTrace')
+        if not res.ok:
+            raise tlc.MachineryError('T4ScanTrace: %s\n%s' % (res.violation, res.out[-2500:]))
+        with open(oj) as f:
+            verdict = json.load(f)
     if verdict['modelbad']:
         raise tlc.MachineryError('T4Scan.tla itself breaks PrefixAgrees on prefixes of real listings: %s' % verdict['modelbad'][:5])
     nofinal = set(verdict['nofinal'])
@@ -1762,7 +2049,8 @@ def run_c11(ctx):
                 pending.append((fnd[0], '/para-editions-synth' if d['name'].startswith(SYNTH) else
                                 '/gram-' + d['name'][len(GRAM):] if d['name'].startswith(GRAM) else '',
                                 fnd[1] + ' [%s offset %d]' % (d['name'], o['off']),
-                                dict(source='file', file=d['name'], offset=o['off'], after=o.get('after', []))))
+                                dict(source='file', file=d['name'], offset=o['off'], after=o.get('after', []),
+                                     thread=o.get('thread', 0), before=o.get('before', []))))
             elif (fno, cid) in drift and fno not in nofinal and shown < 8:
                 shown += 1
                 ctx.drift('%s offset %d: observation is neither T4Scan with the unterminated line dropped nor interpreted: %s'
@@ -1778,14 +2066,27 @@ def run_c11(ctx):
     firsts = {}
     for key, suffix, what, case in pending:
         firsts.setdefault(key if key in plain_keys else key + suffix, (key, case))
-    minimal = minimise_histories(firsts)
+    minimal, unconfirmed = minimise_histories(firsts)
     _t('histories of %d finding classes minimised' % len(minimal))
     for key, suffix, what, case in pending:
         full_key = key if key in plain_keys else key + suffix
+        if full_key in unconfirmed:         # a hang that fresh processes do not show again does not count
+            continue
         after_suffix, case = minimal.get(full_key, ('', case))
-        if after_suffix:
+        if after_suffix and case.get('after'):
             what += ' -- after %s was parsed in the same process' % ', '.join(case['after'])
+        if after_suffix.endswith('/other-thread'):
+            what += ' -- parsed by %s of the process, after %s; not when the main thread parses alone' % (
+                'worker thread %d' % case['thread'] if case.get('thread') else 'the main thread',
+                ', '.join('%s parsed by thread %d' % ('offset %d of %s' % (b['offset'], b['file']) if b['source'] == 'file' else
+                                                      'a rendered listing', b.get('thread', 0)) for b in case['before'])
+                or 'nothing')
         ctx.violation(full_key + after_suffix, what, case, module='conf_t4scan')
+    if n_skipped:
+        ctx.drift('%d cases were not run or not judged: a parse had hung in the process that was to run them' % n_skipped)
+    if unconfirmed:
+        raise tlc.MachineryError('a parse got no answer (%s) but fresh processes given the same history do not show it again: '
+                                 'overloaded machine? %d cases were not run' % (', '.join(unconfirmed), n_skipped))
     n_prefixes = sum(pf['n'] for pf in per_file.values())
     ctx.count(evaluations=sum(pf['nparse'] for pf in per_file.values()), traces=n_prefixes)
     if n_amb:
